@@ -27,10 +27,13 @@ const (
 type argKind int
 
 const (
-	argF1  argKind = iota // one Int field
-	argF3                 // Int, String, Int
-	argNS                 // Namespace + Int
-	argMut                // Object(mutable marshaler) + Int
+	argF1     argKind = iota // one Int field
+	argF3                    // Int, String, Int
+	argNS                    // Namespace + Int
+	argMut                   // Object(mutable marshaler) + Int
+	argSkip                  // zap.Skip(), Int, Int: a no-op field that is not last
+	argNilErr                // Int, zap.NamedError(k, nil) (= no-op), String
+	argAgain                 // the very slice object handed to the latest earlier With/WithLazy/WithOptions(Fields) step (a fresh [Int] if none)
 	argNone
 )
 
@@ -84,10 +87,30 @@ var sepNameSyms = []symbol{
 	{"Named(a.b)", opNamed, argNone, "a.b"},
 }
 
+// no-op fields inside the argument, and derivations that reuse the caller's slice object
+var sliceSyms = []symbol{
+	{"WithSkip", opWith, argSkip, ""},
+	{"WithNilErr", opWith, argNilErr, ""},
+	{"LazySkip", opWithLazy, argSkip, ""},
+	{"LazyNilErr", opWithLazy, argNilErr, ""},
+	{"FieldsSkip", opFieldsOpt, argSkip, ""},
+	{"FieldsNilErr", opFieldsOpt, argNilErr, ""},
+	{"AgainWith", opWith, argAgain, ""},
+	{"AgainLazy", opWithLazy, argAgain, ""},
+	{"AgainFields", opFieldsOpt, argAgain, ""},
+}
+
+func isSliceSym(s symbol) bool { return s.arg == argSkip || s.arg == argNilErr || s.arg == argAgain }
+
 func isSepName(s symbol) bool { return s.op == opNamed && strings.Contains(s.nm, ".") }
 
 func symByName(n string) (symbol, bool) {
 	for _, s := range sepNameSyms {
+		if s.name == n {
+			return s, true
+		}
+	}
+	for _, s := range sliceSyms {
 		if s.name == n {
 			return s, true
 		}
@@ -123,11 +146,16 @@ type step struct {
 // mut is the mutable marshaler: it serialises whatever val holds at the moment
 // MarshalLogObject runs, and counts the calls.
 type mut struct {
-	id     int
-	val    int
-	calls  int
-	evalAt int // reference model: the event at which the documentation says it is evaluated (-1: not yet)
-	lazy   bool
+	id    int
+	val   int
+	calls int
+	want  int // reference model: evaluations due so far (one per derivation step that carries it, once that step is evaluated)
+}
+
+// evalRec is the reference model's record of one derivation step's evaluation of a marshaler.
+type evalRec struct {
+	at   int // the event at which the documentation says it is evaluated (-1: not yet)
+	lazy bool
 }
 
 func (m *mut) MarshalLogObject(enc zapcore.ObjectEncoder) error {
@@ -142,6 +170,7 @@ const (
 	kStr
 	kNS
 	kMut
+	kSkip // a no-op field (zap.Skip() / NamedError(k, nil)): renders nothing, an observer keeps it as given
 )
 
 // fspec is the reference model's view of one field.
@@ -151,6 +180,7 @@ type fspec struct {
 	i    int64
 	s    string
 	m    *mut
+	e    *evalRec
 	step int // node that added it (0 root core, -1 call site)
 }
 
@@ -162,6 +192,11 @@ func (f fspec) field() zap.Field {
 		return zap.String(f.key, f.s)
 	case kNS:
 		return zap.Namespace(f.key)
+	case kSkip:
+		if f.s == "nilerr" {
+			return zap.NamedError(f.key, nil)
+		}
+		return zap.Skip()
 	}
 	return zap.Object(f.key, f.m)
 }
@@ -188,6 +223,8 @@ func toSugar(fs []fspec) []interface{} {
 			out = append(out, zap.Namespace(f.key))
 		case kMut:
 			out = append(out, f.key, f.m)
+		case kSkip:
+			out = append(out, f.field())
 		}
 	}
 	return out
@@ -210,11 +247,23 @@ func (r *runner) argFields(i int, a argKind, lazy bool) []fspec {
 			{kind: kInt, key: p + "a", i: int64(100*i + 1), step: i},
 		}
 	case argMut:
-		m := &mut{id: i, evalAt: -1, lazy: lazy}
+		m := &mut{id: i}
 		r.muts = append(r.muts, m)
 		return []fspec{
-			{kind: kMut, key: "o" + strconv.Itoa(i), m: m, step: i},
+			{kind: kMut, key: "o" + strconv.Itoa(i), m: m, e: &evalRec{at: -1, lazy: lazy}, step: i},
 			{kind: kInt, key: p + "a", i: int64(100*i + 1), step: i},
+		}
+	case argSkip:
+		return []fspec{
+			{kind: kSkip, s: "skip", step: i},
+			{kind: kInt, key: p + "a", i: int64(100*i + 1), step: i},
+			{kind: kInt, key: p + "b", i: int64(100*i + 2), step: i},
+		}
+	case argNilErr:
+		return []fspec{
+			{kind: kInt, key: p + "a", i: int64(100*i + 1), step: i},
+			{kind: kSkip, key: p + "e", s: "nilerr", step: i},
+			{kind: kStr, key: p + "b", s: "s" + strconv.Itoa(i), step: i},
 		}
 	}
 	return nil
@@ -234,10 +283,11 @@ const (
 	famObserver
 	famJSONDyn // json core on an AtomicLevel that is above Fatal during every derivation
 	famTeeDyn  // tee(json, observer), both on the same such AtomicLevel
+	famTeeJJ   // tee(json, json): two sinks, both checked
 	nFam
 )
 
-var famNames = [nFam]string{"json", "console", "tee(json,observer)", "sampler(json)", "hooked(json)", "increase-level(json)", "lazy(json)", "observer", "json@AtomicLevel(off while deriving)", "tee(json,observer)@AtomicLevel(off while deriving)"}
+var famNames = [nFam]string{"json", "console", "tee(json,observer)", "sampler(json)", "hooked(json)", "increase-level(json)", "lazy(json)", "observer", "json@AtomicLevel(off while deriving)", "tee(json,observer)@AtomicLevel(off while deriving)", "tee(json,json)"}
 
 const (
 	fmtJSON = iota
@@ -332,9 +382,9 @@ func (r *runner) newFixture(fam int) *fixture {
 		}
 		fx.core = c
 	case famLazy:
-		m := &mut{id: 0, evalAt: -1, lazy: true}
+		m := &mut{id: 0}
 		r.muts = append(r.muts, m)
-		fx.rootFields = []fspec{{kind: kInt, key: "r0", i: 7, step: 0}, {kind: kMut, key: "ro", m: m, step: 0}}
+		fx.rootFields = []fspec{{kind: kInt, key: "r0", i: 7, step: 0}, {kind: kMut, key: "ro", m: m, e: &evalRec{at: -1, lazy: true}, step: 0}}
 		fx.core = zapcore.NewLazyWith(jsonCore(), toFields(fx.rootFields, 0))
 	case famJSONDyn:
 		al := zap.NewAtomicLevelAt(zapcore.DebugLevel)
@@ -350,6 +400,10 @@ func (r *runner) newFixture(fam int) *fixture {
 		oc, logs := observer.New(al)
 		fx.logs = logs
 		fx.core = pre(zapcore.NewTee(zapcore.NewCore(zapcore.NewJSONEncoder(encCfg), s, al), oc))
+		fx.evalDemand = false
+	case famTeeJJ:
+		// every branch evaluates a marshaler for itself: no count is demanded
+		fx.core = pre(zapcore.NewTee(jsonCore(), jsonCore()))
 		fx.evalDemand = false
 	case famObserver:
 		oc, logs := observer.New(zapcore.DebugLevel)
@@ -442,6 +496,7 @@ type runner struct {
 	fast, slow int64
 	samplerFx  *fixture
 	all        []fspec
+	args       []*argRec
 	// alwaysDecode turns the byte-equality shortcut off
 	alwaysDecode bool
 }
@@ -449,14 +504,17 @@ type runner struct {
 // touch evaluates (in the model) every not yet evaluated marshaler in fs at event ev.
 func touch(fs []fspec, ev int) {
 	for _, f := range fs {
-		if f.kind == kMut && f.m.evalAt < 0 {
-			f.m.evalAt = ev
+		if f.kind == kMut && f.e.at < 0 {
+			f.e.at = ev
+			f.m.want++
 		}
 	}
 }
 
 func (r *runner) exec(c caseDesc) (fail *failure) {
 	r.muts = r.muts[:0]
+	r.args = r.args[:0]
+	var lastArg *argRec
 	r.casesRun++
 	fx := r.newFixture(c.fam)
 	famName := famNames[c.fam]
@@ -509,9 +567,30 @@ func (r *runner) exec(c caseDesc) (fail *failure) {
 			n := mnode{parent: st.parent, sugared: p.sugared, names: p.names, op: curOp}
 			n.fields = append([]fspec(nil), p.fields...)
 			var add []fspec
+			var rec *argRec
 			switch st.sym.op {
 			case opWith, opWithLazy, opFieldsOpt:
-				add = r.argFields(i, st.sym.arg, st.sym.op == opWithLazy)
+				lazy := st.sym.op == opWithLazy
+				if st.sym.arg == argAgain && lastArg != nil {
+					// the same slice object again: the same fields, evaluated anew for this step
+					rec = lastArg
+					add = append([]fspec(nil), rec.specs...)
+					for k := range add {
+						add[k].step = i
+						if add[k].kind == kMut {
+							add[k].e = &evalRec{at: -1, lazy: lazy}
+						}
+					}
+				} else {
+					a := st.sym.arg
+					if a == argAgain {
+						a = argF1
+					}
+					add = r.argFields(i, a, lazy)
+					rec = &argRec{specs: add}
+					r.args = append(r.args, rec)
+				}
+				lastArg = rec
 				for _, m := range r.muts {
 					m.val = evNo
 				}
@@ -534,21 +613,21 @@ func (r *runner) exec(c caseDesc) (fail *failure) {
 			switch st.sym.op {
 			case opWith:
 				if p.sugared {
-					n.sugar = p.sugar.With(toSugar(add)...)
+					n.sugar = p.sugar.With(rec.sugar()...)
 				} else {
-					n.plain = p.plain.With(toFields(add, 2)...)
+					n.plain = p.plain.With(rec.fields()...)
 				}
 			case opWithLazy:
 				if p.sugared {
-					n.sugar = p.sugar.WithLazy(toSugar(add)...)
+					n.sugar = p.sugar.WithLazy(rec.sugar()...)
 				} else {
-					n.plain = p.plain.WithLazy(toFields(add, 2)...)
+					n.plain = p.plain.WithLazy(rec.fields()...)
 				}
 			case opFieldsOpt:
 				if p.sugared {
-					n.sugar = p.sugar.WithOptions(zap.Fields(toFields(add, 2)...))
+					n.sugar = p.sugar.WithOptions(zap.Fields(rec.fields()...))
 				} else {
-					n.plain = p.plain.WithOptions(zap.Fields(toFields(add, 2)...))
+					n.plain = p.plain.WithOptions(zap.Fields(rec.fields()...))
 				}
 			case opNamed:
 				if p.sugared {
@@ -564,6 +643,11 @@ func (r *runner) exec(c caseDesc) (fail *failure) {
 				}
 			}
 			nodes = append(nodes, n)
+			if rec != nil {
+				if d := rec.changed(); d != "" {
+					return &failure{key: famName + ":caller-slice-modified:" + curOp, what: fmt.Sprintf("derive n%d (%s) changed the argument slice it was handed: %s", i, curOp, d)}
+				}
+			}
 			continue
 		}
 
@@ -579,10 +663,14 @@ func (r *runner) exec(c caseDesc) (fail *failure) {
 		touch(n.fields, evNo)
 		r.logCalls++
 		expectedLogs++
+		csRec := argRec{specs: cs}
 		if n.sugared {
-			n.sugar.Infow(msg, toSugar(cs)...)
+			n.sugar.Infow(msg, csRec.sugar()...)
 		} else {
-			n.plain.Info(msg, toFields(cs, 0)...)
+			n.plain.Info(msg, csRec.fields()...)
+		}
+		if d := csRec.changed(); d != "" {
+			return &failure{key: famName + ":caller-slice-modified:" + curOp, what: fmt.Sprintf("log%d on n%d changed the call-site argument slice: %s", e.round, e.node, d)}
 		}
 		all := append(r.all[:0], fx.rootFields...)
 		all = append(all, n.fields...)
@@ -599,6 +687,12 @@ func (r *runner) exec(c caseDesc) (fail *failure) {
 		}
 	}
 
+	// slices retained by a logger (lazy cores keep them) must still be what the caller passed
+	for _, rec := range r.args {
+		if d := rec.changed(); d != "" {
+			return &failure{key: famName + ":caller-slice-modified-later", what: fmt.Sprintf("an argument slice was intact when its derivation returned but differs at the end of the program: %s", d)}
+		}
+	}
 	for _, k := range fx.kept {
 		if !ctxEqual(k.ctx, k.want) {
 			gl, wl, class := ctxDiff(k.ctx, k.want)
@@ -608,12 +702,21 @@ func (r *runner) exec(c caseDesc) (fail *failure) {
 	// evaluation counts: every marshaler has been used by now (every node logged)
 	if fx.evalDemand {
 		for _, m := range r.muts {
-			if m.calls != 1 {
+			if m.calls != m.want {
 				kind := "With"
-				if m.lazy {
-					kind = "WithLazy"
+				for _, n := range nodes {
+					for _, f := range n.fields {
+						if f.m == m && f.e.lazy {
+							kind = "WithLazy"
+						}
+					}
 				}
-				return &failure{key: fmt.Sprintf("%s:eval-count:%s", famName, kind), what: fmt.Sprintf("the marshaler added by step %d (%s) was evaluated %d times over the whole program, documented: once (With: upon invocation; WithLazy: at first use)", m.id, kind, m.calls)}
+				for _, f := range fx.rootFields {
+					if f.m == m {
+						kind = "WithLazy"
+					}
+				}
+				return &failure{key: fmt.Sprintf("%s:eval-count:%s", famName, kind), what: fmt.Sprintf("the marshaler first added by step %d (%s) was evaluated %d times over the whole program, documented: %d (once per derivation step that carries it - With: upon invocation; WithLazy: at first use)", m.id, kind, m.calls, m.want)}
 			}
 		}
 	}
@@ -739,6 +842,76 @@ func (r *runner) verify(fx *fixture, e event, n mnode, name, msg string, all []f
 	return nil
 }
 
+// argRec is one argument slice handed to zap: the typed and/or the loosely
+// typed rendering of specs, created on first need and then reused as the very
+// same object by the Again* steps.
+type argRec struct {
+	specs []fspec
+	f     []zap.Field
+	s     []interface{}
+}
+
+func (a *argRec) fields() []zap.Field {
+	if a.f == nil {
+		a.f = toFields(a.specs, 2)
+	}
+	return a.f
+}
+
+func (a *argRec) sugar() []interface{} {
+	if a.s == nil {
+		a.s = toSugar(a.specs)
+	}
+	return a.s
+}
+
+// changed compares the slices with what the caller put into them (Key, Type,
+// Integer, String and Interface identity of every Field; every element of the
+// loosely typed slice; the spare capacity must still be zero).
+func (a *argRec) changed() string {
+	if a.f != nil {
+		if len(a.f) != len(a.specs) {
+			return "length changed"
+		}
+		for k, sp := range a.specs {
+			if w := sp.field(); a.f[k] != w {
+				return fmt.Sprintf("[]Field element %d is now %s, the caller passed %s", k, fieldString(a.f[k]), fieldString(w))
+			}
+		}
+		for k, x := range a.f[len(a.f):cap(a.f)] {
+			if x != (zap.Field{}) {
+				return fmt.Sprintf("spare capacity element %d of the []Field was written: %s", k, fieldString(x))
+			}
+		}
+	}
+	if a.s != nil {
+		k := 0
+		for _, sp := range a.specs {
+			var w []interface{}
+			switch sp.kind {
+			case kInt:
+				w = []interface{}{sp.key, sp.i}
+			case kStr:
+				w = []interface{}{sp.key, sp.s}
+			case kMut:
+				w = []interface{}{sp.key, sp.m}
+			default:
+				w = []interface{}{sp.field()}
+			}
+			for _, x := range w {
+				if k >= len(a.s) || a.s[k] != x {
+					return fmt.Sprintf("[]interface{} element %d changed (caller passed %v)", k, x)
+				}
+				k++
+			}
+		}
+		if k != len(a.s) {
+			return "length of the []interface{} changed"
+		}
+	}
+	return ""
+}
+
 type keptEntry struct {
 	ctx   []zapcore.Field
 	want  []fspec
@@ -783,6 +956,12 @@ func (w lazyWhere) String() string {
 // It is only a shortcut for equality: any line that differs from it is decoded.
 func renderExpected(b []byte, format int, name, msg string, fs []fspec) []byte {
 	colon, comma := ":", ","
+	vis := 0
+	for _, f := range fs {
+		if f.kind != kSkip {
+			vis++
+		}
+	}
 	if format == fmtConsole {
 		colon, comma = ": ", ", "
 		if name != "" {
@@ -790,7 +969,7 @@ func renderExpected(b []byte, format int, name, msg string, fs []fspec) []byte {
 			b = append(b, '\t')
 		}
 		b = append(b, msg...)
-		if len(fs) == 0 {
+		if vis == 0 {
 			return append(b, '\n')
 		}
 		b = append(b, "\t{"...)
@@ -804,13 +983,16 @@ func renderExpected(b []byte, format int, name, msg string, fs []fspec) []byte {
 		b = append(b, `"msg":"`...)
 		b = append(b, msg...)
 		b = append(b, '"')
-		if len(fs) > 0 {
+		if vis > 0 {
 			b = append(b, ',')
 		}
 	}
 	open := 0
 	first := true
 	for _, f := range fs {
+		if f.kind == kSkip {
+			continue
+		}
 		if !first {
 			b = append(b, comma...)
 		}
@@ -837,7 +1019,7 @@ func renderExpected(b []byte, format int, name, msg string, fs []fspec) []byte {
 			b = append(b, comma...)
 			b = append(b, `"v"`...)
 			b = append(b, colon...)
-			b = strconv.AppendInt(b, int64(f.m.evalAt), 10)
+			b = strconv.AppendInt(b, int64(f.e.at), 10)
 			b = append(b, '}')
 		}
 	}
@@ -855,6 +1037,8 @@ func fieldString(f zapcore.Field) string {
 		return fmt.Sprintf("%s=%q", f.Key, f.String)
 	case zapcore.NamespaceType:
 		return f.Key + "={"
+	case zapcore.SkipType:
+		return f.Key + "=<skip>"
 	case zapcore.ObjectMarshalerType:
 		if m, ok := f.Interface.(*mut); ok {
 			return fmt.Sprintf("%s=obj#%d", f.Key, m.id)
@@ -880,7 +1064,7 @@ func fieldsTree(dst *jsonx.Node, fs []fspec) {
 		case kMut:
 			o := jsonx.O()
 			o.Add("id", jsonx.N(strconv.Itoa(f.m.id)))
-			o.Add("v", jsonx.N(strconv.Itoa(f.m.evalAt)))
+			o.Add("v", jsonx.N(strconv.Itoa(f.e.at)))
 			cur.Add(f.key, o)
 		}
 	}
@@ -956,7 +1140,7 @@ func classify(got, want []string, all []fspec) string {
 				// marshaler state
 				for _, f := range all {
 					if f.kind == kMut && strings.Contains(w, f.key+".v=") {
-						if f.m.lazy {
+						if f.e.lazy {
 							return "lazy-evaluated-at-wrong-time"
 						}
 						return "with-evaluated-at-wrong-time"
